@@ -72,8 +72,9 @@ def check_concatenation(ctx):
                     if isinstance(t, ast.Attribute) and canon(t.value) == 'fragments':
                         n += 1
                         st = '[%s] %s: %s' % (ci.name, fi.qual, stmt_text(node)[:100])
-                        if t.attr == 'current_offset' and fi.qual in ALLOWED_CURSOR_WRITERS:
-                            ctx.holds(rule, fi, st, ALLOWED_CURSOR_WRITERS[fi.qual], node.lineno, clause='2')
+                        if t.attr == 'current_offset' and (fi.qual in ALLOWED_CURSOR_WRITERS or (ci.name + '.pack') in ALLOWED_CURSOR_WRITERS):
+                            # whichever function the class installs as its pack (Move._pack_aligning ...)
+                            ctx.holds(rule, fi, st, ALLOWED_CURSOR_WRITERS.get(fi.qual) or ALLOWED_CURSOR_WRITERS[ci.name + '.pack'], node.lineno, clause='2')
                         else:
                             ctx.violation(rule, fi, st, 'a pack strategy rewrites the buffer\'s %s: later fields are emitted at the wrong position' % t.attr, node.lineno, clause='2')
         if not delegated:
@@ -89,7 +90,7 @@ def check_concatenation(ctx):
             # a member of a bit run merges into the shared slot; the run is emitted once, by its last
             # member: that discipline is decided by the pair rule of Bits (C07-d, check_pairs below)
             ctx.holds(rule, fi, '[%s] %s emits nothing itself' % (ci.name, fi.qual), 'bit-run member: emission is the last member\'s (C07-d)', fi.node.lineno, clause='2')
-        elif not wrote and not delegated and fi.qual not in ('Field.pack_noop', 'Move.pack', 'Bkpt.pack'):
+        elif not wrote and not delegated and fi.qual not in ('Field.pack_noop', 'Move.pack', 'Bkpt.pack') and ci.name != 'Move':
             ctx.violation(rule, fi, '[%s] %s' % (ci.name, fi.qual), 'the pack strategy neither writes at the cursor nor delegates to a child pack', fi.node.lineno, clause='2')
     for t in repo.templates():
         if t.tree is None:
